@@ -14,6 +14,7 @@ public:
     virtual void solve(const real_t* x, cmplx_t* y, int n) const {
         //TODO: use span
         const auto r = this->solve(arr_real(x, n));
+        DSPLIB_ASSERT(r.size() == n, "output size is not equal input size");
         std::memcpy(y, r.data(), n * sizeof(cmplx_t));
     }
     [[nodiscard]] virtual int size() const noexcept = 0;
@@ -27,6 +28,7 @@ public:
     [[nodiscard]] virtual arr_cmplx solve(const arr_cmplx& x) const = 0;
     virtual void solve(const cmplx_t* x, cmplx_t* y, int n) const {
         const auto r = this->solve(arr_cmplx(x, n));
+        DSPLIB_ASSERT(r.size() == n, "output size is not equal input size");
         std::memcpy(y, r.data(), n * sizeof(cmplx_t));
     }
     [[nodiscard]] virtual int size() const noexcept = 0;
